@@ -1,7 +1,7 @@
 (** Why the bins must be re-checked against the edges as computed: in binary64 the floor of the
     quotient is not enough (the defect repaired in FixedWidthBinning._cover_value). *)
 From Coq Require Import ZArith Uint63 PrimFloat FloatOps.
-Open Scope Z_scope.
+Local Open Scope Z_scope.
 
 Definition f2ze (f : float) : option (Z * Z) :=
   match Prim2SF f with
